@@ -360,6 +360,10 @@ def run(ctx, chk):
             r = [p for p in paths if p.end == "return"]
             chk.ob("via=C08/R22", "Kmer::unsafe_from_seqslice", len(r) == 1 and not res[id(r[0])] and C08.is_pack(r[0].ret) == ("bits", P(1)),
                    "kmer! relies on unsafe_from_seqslice packing the whole content of the literal: " + (show(r[0].ret)[:120] if r else "?"), b["span"])
+        # kmer!(lit, u64 | u128) packs through the storage type's from_bitslice / to_bitarray: their rows (little-endian word
+        # decomposition, load_le) are C04's, imported here because a literal k-mer is not a const-evaluated static
+        import core
+        core.import_rows(chk, cfg, "C04", "props.C04", ("S-kmer-int", "I-endian"))
     # ---- (2) evaluated statics of generated literals ----
     cfg = ctx.cfg("def-dbg")
     chk.cfg = "witness"
